@@ -104,8 +104,8 @@ func (v *ScriptView) writeModifySQLForATable(
 	}
 	// DELETE COLUMNS
 	v.stringBuilder.WriteString(dropColumnQueries)
-	// ADD A PRIMARY KEY
-	if primaryKeyChanged {
+	// ADD A PRIMARY KEY, unless no key column is left
+	if primaryKeyChanged && len(primaryKeys) > 0 {
 		pk := v.getPrimaryKeyString(primaryKeys)
 		v.stringBuilder.WriteString(fmt.Sprintf("ALTER TABLE %s ADD CONSTRAINT %s PRIMARY KEY(%s);\n",
 			tableName, pkConstraintName, pk))
